@@ -57,6 +57,15 @@ func c06MidStream(cs c06MidCase) (in []byte, msgLen int) {
 		in = append(in, frame.Ctl(frame.OpPing, masked, []byte("p")).Encode(nil)...)
 		in = append(in, data(frame.OpCont, true, 4, 0x8a)...)
 		msgLen = 10
+	case "large":
+		// more unread data in flight than the read limit allows a single message to have
+		in = append(in, data(frame.OpBinary, true, 40000, 0x8b)...)
+		msgLen = 40000
+	case "many-large":
+		for i := 0; i < 3; i++ {
+			in = append(in, data(frame.OpBinary, true, 20000, 0x8c)...)
+		}
+		msgLen = 20000
 	}
 	return
 }
@@ -188,6 +197,13 @@ func c06MidCases() []c06MidCase {
 					for _, ender := range []string{"Close", "CloseNow"} {
 						out = append(out, c06MidCase{Client: client, Shape: sh, Read: rd, Kind: "close-midread", Comp: comp, Ender: ender})
 					}
+				}
+			}
+		}
+		for _, sh := range []string{"large", "many-large"} {
+			for _, rd := range []int{-1, 0, 5} {
+				for _, ender := range []string{"Close", "CloseNow"} {
+					out = append(out, c06MidCase{Client: client, Shape: sh, Read: rd, Kind: "close-midread", Ender: ender})
 				}
 			}
 		}
